@@ -248,10 +248,10 @@ Proof.
 Qed.
 
 Definition allq (Q : diag -> Prop) (l : list diag) : Prop := forall d, In d l -> Q d.
-Lemma allq_nil Q : allq Q []. Proof. intros d []. Qed.
-Lemma allq_cons Q x l : Q x -> allq Q l -> allq Q (x :: l).
+Lemma allq_nil (Q : diag -> Prop) : allq Q []. Proof. intros d []. Qed.
+Lemma allq_cons (Q : diag -> Prop) x l : Q x -> allq Q l -> allq Q (x :: l).
 Proof. intros Hx Hl d [<-|Hd]; auto. Qed.
-Lemma allq_app Q a b : allq Q a -> allq Q b -> allq Q (a ++ b).
+Lemma allq_app (Q : diag -> Prop) a b : allq Q a -> allq Q b -> allq Q (a ++ b).
 Proof. intros Ha Hb d Hd. apply in_app_or in Hd. destruct Hd; auto. Qed.
 
 Ltac aq :=
@@ -313,3 +313,322 @@ Proof.
   apply in_app_or in Hd. destruct Hd as [Hd|Hd]; [eapply params_go_sev; eauto|].
   apply in_app_or in Hd. destruct Hd as [Hd|Hd]; [eapply rets_sev; eauto | eapply link_sev, Hd].
 Qed.
+
+(* ---------------------------------------------------------------- no diagnostic twice in the list *)
+
+Lemma code_eqb_spec a b : code_eqb a b = true <-> a = b.
+Proof.
+  unfold code_eqb. rewrite Nat.eqb_eq. split; [|intros ->; reflexivity].
+  destruct a, b; simpl; intros H; try reflexivity; discriminate.
+Qed.
+
+Lemma sev_eqb_spec a b : sev_eqb a b = true <-> a = b.
+Proof. destruct a, b; simpl; split; congruence. Qed.
+
+Lemma anchor_eqb_spec a b : anchor_eqb a b = true <-> a = b.
+Proof.
+  destruct a, b; simpl; try (split; [discriminate | congruence]); try rewrite Nat.eqb_eq;
+    try (split; congruence).
+  rewrite andb_true_iff, Nat.eqb_eq, str_eqb_spec. split; [intros [-> ->]; reflexivity | intros H; inversion H; auto].
+Qed.
+
+Lemma diag_eqb_spec a b : diag_eqb a b = true <-> a = b.
+Proof.
+  unfold diag_eqb. rewrite !andb_true_iff, code_eqb_spec, sev_eqb_spec, anchor_eqb_spec.
+  destruct a, b; simpl. split; [intros [[-> ->] ->]; reflexivity | intros H; inversion H; auto].
+Qed.
+
+Definition aidx (d : diag) : nat :=
+  match d_anchor d with
+  | AnComment i | AnValue i | AnProps i | AnParam i => i
+  | AnUrl i _ => i
+  | AnRets => 0
+  end.
+
+(* which validator a diagnostic comes from: 0 common, 1 parameters, 2 return types, 3 link *)
+Definition part (d : diag) : nat :=
+  match d_code d with
+  | CInvalidBody | CParamNotPrimitive => 1
+  | CRetNotError => 2
+  | CRetInvalidSignature => match d_anchor d with AnRets => 2 | _ => 1 end
+  | CRouteMissingPath | CUnreferencedParam | CMultipleParamRefs | CPathInvalidRef | CDuplicatePathParam
+  | CDuplicatePathAliasRef | CDuplicateUrlParam => 3
+  | CPropInvalidValue => match d_sev d with SevError => 3 | SevWarning => 0 end
+  | _ => 0
+  end.
+
+Definition key (d : diag) : nat := code_n (d_code d).
+
+Lemma NoDup_map_inv' {A B} (f : A -> B) l : NoDup (map f l) -> NoDup l.
+Proof.
+  induction l as [|x t IH]; simpl; intros H; [constructor|]. inversion H as [|? ? Hn Hd]; subst.
+  constructor; [|auto]. intros Hi. apply Hn. apply in_map. assumption.
+Qed.
+
+Ltac nd := repeat constructor; simpl; intuition (try discriminate; try lia).
+
+Lemma common_attr_nodup seen uniq i a : NoDup (map key (common_attr seen uniq i a)).
+Proof.
+  unfold common_attr. destruct (rule_of (la_kind a)) as [ru|]; [|nd].
+  destruct (ru_requires_value ru && is_nil (la_value a));
+  destruct (negb (ru_allows_multiple ru) && Nat.ltb 1 (count_kind (la_kind a) seen));
+  destruct (existsb (fun k => Nat.ltb 0 (count_kind k seen)) (ru_mutex ru));
+  destruct (ru_unique ru && negb (is_nil (la_value a)) && smem (la_value a) uniq);
+  destruct (la_alias a), (ru_props ru);
+  destruct (la_kind a); unfold verb_diags;
+  try (destruct (smem (la_value a) supported_verbs); [|destruct (smem (la_value a) other_http_verbs)]);
+  simpl; nd.
+Qed.
+
+Lemma common_attr_meta seen uniq i a : allq (fun d => part d = 0 /\ aidx d = i) (common_attr seen uniq i a).
+Proof.
+  unfold common_attr. destruct (rule_of (la_kind a)) as [ru|]; [|apply allq_cons; [split; reflexivity | apply allq_nil]].
+  repeat apply allq_app;
+    try (match goal with |- allq _ (if ?c then _ else _) => destruct c end;
+         [apply allq_cons; [split; reflexivity | apply allq_nil] | apply allq_nil]).
+  - destruct (la_alias a), (ru_props ru); try apply allq_nil; (apply allq_cons; [split; reflexivity | apply allq_nil]).
+  - destruct (la_kind a); try apply allq_nil. unfold verb_diags.
+    destruct (smem (la_value a) supported_verbs); [apply allq_nil|].
+    destruct (smem (la_value a) other_http_verbs); (apply allq_cons; [split; reflexivity | apply allq_nil]).
+Qed.
+
+Lemma common_go_nodup : forall l seen uniq i,
+  NoDup (common_go seen uniq (index_from i l))
+  /\ allq (fun d => part d = 0 /\ (i <= aidx d)%nat) (common_go seen uniq (index_from i l)).
+Proof.
+  induction l as [|a t IH]; intros seen uniq i; simpl; [split; [constructor | apply allq_nil]|].
+  match goal with |- context [common_go ?s ?u (index_from (S i) t)] => destruct (IH s u (S i)) as [IH1 IH2] end.
+  pose proof (common_attr_meta (la_kind a :: seen) uniq i a) as M.
+  split.
+  - apply NoDup_app_iff. repeat split; auto.
+    + eapply NoDup_map_inv', common_attr_nodup.
+    + intros x Hx1 Hx2. destruct (M x Hx1) as [_ E1]. destruct (IH2 x Hx2) as [_ E2]. lia.
+  - apply allq_app.
+    + intros d Hd. destruct (M d Hd) as [P1 P2]. split; [assumption | lia].
+    + intros d Hd. destruct (IH2 d Hd) as [P1 P2]. split; [assumption | lia].
+Qed.
+
+Lemma type_comb_meta processed j p pi :
+  NoDup (type_diag j p pi ++ validate_combination processed j pi)
+  /\ allq (fun d => part d = 1 /\ aidx d = j) (type_diag j p pi ++ validate_combination processed j pi).
+Proof.
+  unfold type_diag, validate_body_param, validate_nonbody_param, validate_combination.
+  destruct pi;
+    repeat match goal with |- context [if ?c then _ else _] => destruct c end;
+    simpl; split; try (nd; fail);
+    repeat (apply allq_cons; [split; reflexivity|]); apply allq_nil.
+Qed.
+
+Lemma params_go_nodup attrs : forall ps processed j0 dl,
+  params_go attrs processed (index_from j0 ps) = Some dl ->
+  NoDup dl /\ allq (fun d => part d = 1 /\ (j0 <= aidx d)%nat) dl.
+Proof.
+  induction ps as [|p t IH]; intros processed j0 dl Hg.
+  - simpl in Hg. inversion Hg; subst. split; [constructor | apply allq_nil].
+  - cbn [index_from] in Hg. rewrite params_go_cons in Hg. destruct (pi_of attrs p) as [|pi rest].
+    + assert (Hg' : params_go attrs processed (index_from (S j0) t) = Some dl).
+      { destruct (is_ctx p); [assumption|]. destruct (first_by_value (fp_name p) attrs); [discriminate | assumption]. }
+      destruct (IH _ _ _ Hg') as [H1 H2]. split; [assumption|].
+      intros d Hd. destruct (H2 d Hd). split; [assumption | lia].
+    + destruct (params_go attrs (processed ++ [pi]) (index_from (S j0) t)) as [dt|] eqn:E; [|discriminate].
+      inversion Hg; subst dl. destruct (IH _ _ _ E) as [H1 H2].
+      destruct (type_comb_meta processed j0 p pi) as [T1 T2]. rewrite app_assoc.
+      split.
+      * apply NoDup_app_iff. repeat split; auto.
+        intros x Hx1 Hx2. destruct (T2 x Hx1) as [_ E1]. destruct (H2 x Hx2) as [_ E2]. lia.
+      * apply allq_app.
+        -- intros d Hd. destruct (T2 d Hd). split; [assumption | lia].
+        -- intros d Hd. destruct (H2 d Hd). split; [assumption | lia].
+Qed.
+
+Lemma rets_nodup r dl : rets_diags r = Some dl -> NoDup dl /\ allq (fun d => part d = 2) dl.
+Proof.
+  unfold rets_diags. intros H.
+  destruct (r_rets r) as [|e1 [|e2 [|e3 t]]]; try (inversion H; subst; split; [nd | apply allq_cons; [reflexivity | apply allq_nil]]; fail).
+  - destruct e1; simpl in H; inversion H; subst; split; try (nd; fail); try apply allq_nil;
+      (apply allq_cons; [reflexivity | apply allq_nil]).
+  - destruct e2; simpl in H; inversion H; subst; split; try (nd; fail); try apply allq_nil;
+      (apply allq_cons; [reflexivity | apply allq_nil]).
+Qed.
+
+Lemma dedup_first_nodup : forall l seen,
+  NoDup (dedup_first seen l) /\ forall d, In d (dedup_first seen l) -> ~ In d seen.
+Proof.
+  induction l as [|x t IH]; intros seen; simpl; [split; [constructor | intros d []]|].
+  destruct (mem diag_eqb x seen) eqn:E; [apply IH|].
+  destruct (IH (x :: seen)) as [H1 H2]. split.
+  - constructor; [|assumption]. intros Hi. apply (H2 x Hi). left; reflexivity.
+  - intros d [<-|Hd].
+    + intros Hs. assert (mem diag_eqb x seen = true) by (apply (mem_spec diag_eqb diag_eqb_spec); assumption). congruence.
+    + intros Hs. apply (H2 d Hd). right; assumption.
+Qed.
+
+Definition part3 (d : diag) : Prop := part d = 3.
+
+Lemma link_part r : allq part3 (link_diags r).
+Proof.
+  intros d H. apply dedup_first_In in H. revert d H. change (allq part3 (link_raw r)).
+  assert (U : forall ri referenced url w, allq part3 (url_go ri referenced w url)).
+  { intros ri referenced. induction url as [|u t IH]; intros w; simpl.
+    - apply allq_nil.
+    - repeat apply allq_app; try apply IH;
+        match goal with |- allq _ (if ?c then _ else _) => destruct c end;
+        try apply allq_nil; (apply allq_cons; [reflexivity | apply allq_nil]). }
+  assert (P1 : allq part3 (pass1 r)).
+  { unfold pass1. destruct (flat_map alias_diag (path_attrs r)) as [|d l] eqn:E; [apply U|].
+    rewrite <- E. intros x Hx. apply in_flat_map in Hx. destruct Hx as [ia [_ Hx]].
+    unfold alias_diag in Hx. destruct (la_alias (snd ia)); simpl in Hx; try contradiction.
+    destruct Hx as [<-|[]]. reflexivity. }
+  assert (P2 : forall l sF sR sA, allq part3 (fst (pass2_go (fnames r) (link_url r) sF sR sA l))).
+  { induction l as [|[i a] t IH]; intros sF sR sA; [apply allq_nil|].
+    rewrite pass2_go_cons. cbn [fst]. unfold p2_d1, p2_d2, p2_d3.
+    destruct (la_alias a) as [|x|]; [|destruct (is_nil x)|];
+      repeat first [ apply IH | apply allq_nil | apply allq_app | (apply allq_cons; [reflexivity|])
+                   | match goal with |- allq _ (if ?c then _ else _) => destruct c end ]. }
+  assert (P3 : forall l sF, allq part3 (fst (pass3_go (fnames r) sF l))).
+  { induction l as [|[i a] t IH]; intros sF; simpl; [apply allq_nil|].
+    destruct (is_nil (la_value a)); [apply IH|]. destruct (smem (la_value a) (fnames r)); [apply IH|].
+    specialize (IH sF). destruct (pass3_go (fnames r) sF t). simpl in *. apply allq_cons; [reflexivity | assumption]. }
+  assert (P4 : forall sF, allq part3 (pass4 r sF)).
+  { intros sF. unfold pass4. intros d Hd. apply in_flat_map in Hd. destruct Hd as [name [_ Hd]].
+    destruct (smem name sF); [destruct Hd|].
+    destruct (first_param name (indexed (r_params r))) as [[j p]|]; [|destruct Hd].
+    destruct (is_ctx p); [destruct Hd|]. destruct Hd as [<-|[]]. reflexivity. }
+  unfold link_raw.
+  pose proof (P2 (path_attrs r) [] [] []) as H2.
+  destruct (pass2_go (fnames r) (link_url r) [] [] [] (path_attrs r)) as [d2 sf2].
+  pose proof (P3 (nonpath_attrs r) sf2) as H3.
+  destruct (pass3_go (fnames r) sf2 (nonpath_attrs r)) as [d3 sf3].
+  simpl in *. repeat apply allq_app; auto.
+Qed.
+
+(* the diagnostics of a receiver are pairwise different (code, severity or anchor differ) *)
+Theorem nodup_list r l : validate r = VDiags l -> NoDup l.
+Proof.
+  unfold validate. destruct (is_endpoint r); simpl; [|discriminate].
+  destruct (params_diags r) as [dp|] eqn:Ep; [|discriminate].
+  destruct (rets_diags r) as [dr|] eqn:Er; [|discriminate].
+  intros H. inversion H; subst l.
+  destruct (common_go_nodup (r_attrs r) [] [] 0) as [C1 C2]. fold (indexed (r_attrs r)) in C1, C2. fold (common_diags r) in C1, C2.
+  unfold params_diags, indexed in Ep. destruct (params_go_nodup _ _ _ _ _ Ep) as [Q1 Q2].
+  destruct (rets_nodup _ _ Er) as [R1 R2].
+  destruct (dedup_first_nodup (link_raw r) []) as [L1 _]. fold (link_diags r) in L1.
+  pose proof (link_part r) as L2.
+  apply NoDup_app_iff. repeat split; auto.
+  - apply NoDup_app_iff. repeat split; auto.
+    + apply NoDup_app_iff. repeat split; auto.
+      intros x Hx1 Hx2. pose proof (R2 x Hx1). pose proof (L2 x Hx2). unfold part3 in *. congruence.
+    + intros x Hx1 Hx2. destruct (Q2 x Hx1) as [E1 _]. apply in_app_or in Hx2. destruct Hx2 as [Hx2|Hx2].
+      * pose proof (R2 x Hx2). congruence.
+      * pose proof (L2 x Hx2). unfold part3 in *. congruence.
+  - intros x Hx1 Hx2. destruct (C2 x Hx1) as [E1 _]. apply in_app_or in Hx2. destruct Hx2 as [Hx2|Hx2].
+    + destruct (Q2 x Hx2). congruence.
+    + apply in_app_or in Hx2. destruct Hx2 as [Hx2|Hx2].
+      * pose proof (R2 x Hx2). congruence.
+      * pose proof (L2 x Hx2). unfold part3 in *. congruence.
+Qed.
+
+(* ---------------------------------------------------------------- the error text *)
+
+Definition matches (sevs : list esev) (d : rdiag) : bool := existsb (esev_eqb (rd_sev d)) sevs.
+
+(* F5: an entity is selected once per matching diagnostic *)
+Lemma with_severity_leaf sevs k n ds :
+  with_severity sevs (Ent k n ds []) = repeat (Ent k n ds []) (List.length (filter (matches sevs) ds)).
+Proof.
+  simpl. rewrite app_nil_r. unfold matches. induction (filter (fun d => existsb (esev_eqb (rd_sev d)) sevs) ds) as [|x t IH];
+    simpl; [reflexivity | rewrite IH; reflexivity].
+Qed.
+
+Lemma count_selected sevs k n ds :
+  List.length (with_severity sevs (Ent k n ds [])) = List.length (filter (matches sevs) ds).
+Proof. rewrite with_severity_leaf. apply repeat_length. Qed.
+
+Definition childless (e : entity) : Prop := e_children e = [].
+Definition at_most_one (sevs : list esev) (e : entity) : Prop := (List.length (filter (matches sevs) (e_diags e)) <= 1)%nat.
+Definition selected_b (sevs : list esev) (e : entity) : bool := negb (is_nil (filter (matches sevs) (e_diags e))).
+
+(* without children and with at most one matching diagnostic per entity the selection is a
+   sub-list of the entities: nothing is printed twice *)
+Lemma get_with_severity_flat sevs l :
+  Forall childless l -> Forall (at_most_one sevs) l ->
+  get_with_severity l sevs = filter (selected_b sevs) l.
+Proof.
+  induction l as [|e t IH]; intros Hc Hm; [reflexivity|].
+  inversion Hc as [|? ? Hc1 Hc2]; inversion Hm as [|? ? Hm1 Hm2]; subst.
+  unfold get_with_severity in *. simpl. rewrite (IH Hc2 Hm2).
+  destruct e as [k n ds cs]. unfold childless in Hc1. simpl in Hc1. subst cs.
+  rewrite with_severity_leaf. unfold at_most_one, selected_b in *. simpl in *.
+  destruct (filter (matches sevs) ds) as [|x [|y r]]; simpl in *; [reflexivity | reflexivity | lia].
+Qed.
+
+Theorem nodup_text_partial sevs l :
+  Forall childless l -> Forall (at_most_one sevs) l -> NoDup l -> NoDup (get_with_severity l sevs).
+Proof.
+  intros Hc Hm Hn. rewrite (get_with_severity_flat sevs l Hc Hm). apply NoDup_filter. assumption.
+Qed.
+
+(* the variant that selects an entity once removes that source of repetition for flat lists ... *)
+Lemma with_severity_once_flat sevs l :
+  Forall childless l -> flat_map (with_severity_once sevs) l = filter (fun e => existsb (matches sevs) (e_diags e)) l.
+Proof.
+  induction l as [|e t IH]; intros Hc; [reflexivity|]. inversion Hc as [|? ? Hc1 Hc2]; subst.
+  simpl. rewrite (IH Hc2). destruct e as [k n ds cs]. unfold childless in Hc1. simpl in Hc1. subst cs. simpl.
+  unfold matches. destruct (existsb (fun d => existsb (esev_eqb (rd_sev d)) sevs) ds); simpl; reflexivity.
+Qed.
+
+(* ... but a parent with an error still prints its children's diagnostics, which are printed again *)
+Lemma text_witnesses :
+  prop_C18_text (error_text demo_tree_two_errors) = false
+  /\ List.length (get_with_severity demo_tree_two_errors [EError]) = 2%nat
+  /\ prop_C18_text (error_text demo_tree_parent_child) = false
+  /\ prop_C18_text (diagnostics_to_error (flat_map (with_severity_once [EError]) demo_tree_parent_child)) = false
+  /\ prop_C18_text (error_text demo_tree_tame) = true.
+Proof. vm_compute. repeat split. Qed.
+
+Lemma nodup_text_refuted : exists tree, prop_C18_text (error_text tree) = false.
+Proof. exists demo_tree_two_errors. apply text_witnesses. Qed.
+
+(* ---------------------------------------------------------------- examples for the ranges *)
+
+Definition demo_layout : layout :=
+  {| ly_attrs := [ {| c_line := 12; c_col := 10; c_text := s "// @Method(FETCH)" |};
+                   {| c_line := 13; c_col := 3; c_text := s "// @Route(/a1/{pid}/{pid}) x" |};
+                   {| c_line := 14; c_col := 2; c_text := s "// @Path(idx, {name:12}) y" |} ];
+     ly_params := [ {| g_sl := 15; g_sc := 17; g_el := 15; g_ec := 26 |} ];
+     ly_rets := zero_rng |}.
+
+Definition demo_route : route :=
+  mkR "/c" [mkA KMethod "FETCH"; mkA KRoute "/a1/{pid}/{pid}";
+            {| la_kind := KPath; la_value := s "idx"; la_alias := ANonStr |}]
+    [mkP "id" TPrim SPlain] [].
+
+Lemma demo_ranged :
+  ranged demo_route demo_layout =
+  [ (3, 1, {| g_sl := 12; g_sc := 21; g_el := 12; g_ec := 26 |});      (* invalid verb: the value *)
+    (7, 2, {| g_sl := 14; g_sc := 2; g_el := 14; g_ec := 28 |});       (* name: 12 is not a string: the comment *)
+    (20, 1, zero_rng);                                                   (* void: the zero range *)
+    (7, 1, {| g_sl := 14; g_sc := 16; g_el := 14; g_ec := 25 |});      (* the properties object *)
+    (14, 1, {| g_sl := 14; g_sc := 11; g_el := 14; g_ec := 14 |});     (* @Path 'idx' is not a parameter: the value *)
+    (12, 1, {| g_sl := 15; g_sc := 17; g_el := 15; g_ec := 26 |}) ].   (* unreferenced parameter: the field *)
+Proof. vm_compute. reflexivity. Qed.
+
+(* the diagnostic about a method that returns nothing points at 0:0-0:0, outside the declaration *)
+Lemma void_range_refuted :
+  exists r ly decl, In (20, 1, zero_rng) (ranged r ly) /\ inside zero_rng decl = false
+                    /\ decl = {| g_sl := 15; g_sc := 0; g_el := 17; g_ec := 1 |}.
+Proof.
+  exists demo_route, demo_layout, {| g_sl := 15; g_sc := 0; g_el := 17; g_ec := 1 |}.
+  split; [rewrite demo_ranged; simpl; auto | split; reflexivity].
+Qed.
+
+(* the value range is the FIRST occurrence of the value text in the comment: for @Path(a) that is
+   the "a" of the annotation name, not the value between the parentheses (text equal, place wrong) *)
+Lemma first_occurrence_example :
+  value_range {| c_line := 3; c_col := 0; c_text := s "// @Path(a)" |} (s "a")
+  = {| g_sl := 3; g_sc := 5; g_el := 3; g_ec := 6 |}.
+Proof. reflexivity. Qed.
+
+Lemma inside_example : inside (value_range demo_cpos (s "FETCH")) (comment_range demo_cpos) = true
+                       /\ value_range demo_cpos (s "FETCH") = {| g_sl := 12; g_sc := 21; g_el := 12; g_ec := 26 |}.
+Proof. split; reflexivity. Qed.
